@@ -416,7 +416,14 @@ struct StringStream {
         const SizeT     new_length = (Length() + len);
 
         if (Capacity() < new_length) {
-            expand(new_length);
+            if ((str >= First()) && (str < End())) {
+                // Appending (a part of) this stream to itself: follow the storage when it moves.
+                const SizeT offset = SizeT(str - First());
+                expand(new_length);
+                str = (First() + offset);
+            } else {
+                expand(new_length);
+            }
         }
 
         Memory::Copy((Storage() + Length()), str, (len * size));
